@@ -29,11 +29,23 @@ META = {
 _CAND = "f'{form[:-len($1[0])]}{$1[1]}'"
 
 
+_CAND_ALT = "form[:-len($1[0])] + $1[1]"
+
+
+def _cand_of(v):
+    """the spelling of the rule output used by this tree: f'{stem}{repl}' or stem + repl (both strings)"""
+    for r in v.rows:
+        if r[0] == 'call' and r[1] == f'#1.add({_CAND_ALT})':
+            return _CAND_ALT
+    return _CAND
+
+
 def r1_provenance(ctx, res):
     """what _morphstr puts into its result, under which conditions (effect summary: locals inlined, so `initialized`,
     `all_lemmas`, `candidate`, `suffix`... may be named, introduced or removed freely)"""
     from ..speccheck import view, expect
     v = view(ctx, 'morphy', 'Morphy._morphstr')
+    _CAND = _cand_of(v)
     inv = f'not self._initialized or {_CAND} in (self._all_lemmas[pos] if self._initialized else set())'
     expect(res, 'candidates', v, [
         ('new', '#1'),
